@@ -300,3 +300,63 @@ if __name__ == '__main__':
         print('mismatches:', len(res['mismatches']))
     finally:
         shutil.rmtree(d)
+
+
+# ---------------------------------------------------------------------------
+# cached build of the real checker for replays (outside /repo and /verif; removed by the driver at exit)
+
+_REAL: dict = {}
+
+
+def _src_hash() -> str:
+    import hashlib
+
+    h = hashlib.sha1()
+    for f in ('/repo/rust/src/lib.rs', '/repo/rust/src/main.rs'):
+        h.update(open(f, 'rb').read())
+    return h.hexdigest()[:16]
+
+
+def build_dir() -> str:
+    return os.path.join(tempfile.gettempdir(), f'pi2verif-build-{_src_hash()}')
+
+
+def real_binary() -> str:
+    d = build_dir()
+    exe = os.path.join(d, 'checker')
+    if not os.path.exists(exe):
+        tmp = tempfile.mkdtemp(prefix='pi2verif-build-tmp')
+        build_real(tmp)
+        try:
+            os.rename(tmp, d)
+        except OSError:
+            import shutil
+
+            shutil.rmtree(tmp, ignore_errors=True)
+    return exe
+
+
+def batch_binary() -> str:
+    d = build_dir()
+    real_binary()
+    exe = os.path.join(d, 'batch')
+    if not os.path.exists(exe):
+        tmp = tempfile.mkdtemp(prefix='pi2verif-batch-tmp')
+        build_batch(tmp)
+        for f in ('batch', 'batch.rs'):
+            try:
+                os.rename(os.path.join(tmp, f), os.path.join(d, f))
+            except OSError:
+                pass
+        import shutil
+
+        shutil.rmtree(tmp, ignore_errors=True)
+    return exe
+
+
+def cleanup_builds() -> None:
+    import glob
+    import shutil
+
+    for d in glob.glob(os.path.join(tempfile.gettempdir(), 'pi2verif-build-*')) + glob.glob(os.path.join(tempfile.gettempdir(), 'pi2verif-batch-*')):
+        shutil.rmtree(d, ignore_errors=True)
